@@ -459,6 +459,64 @@ def mutated_arguments(ctx):
     ctx.count('mutated_argument_checks', n)
 
 
+def tilde_across_changes(ctx):
+    """GLOBTILDE looks the user folder up at every call: the answer follows HOME and the existence of the folder, not what an
+    earlier call saw (glob, iglob, globmatch / globfilter / compile / translate with REALPATH; str and bytes)."""
+    import shutil
+    from .. import env
+    _base, root = env.mknested('c19t-')
+    old_home = os.environ.get('HOME')
+    n = 0
+    try:
+        homes = [os.path.join(root, 'h1'), os.path.join(root, 'h2')]
+        fl = G.GLOBTILDE | G.REALPATH
+
+        def observe(home, exists):
+            nonlocal n
+            by_hand = G.escape(home) + '/*'
+            want = sorted(G.glob(by_hand)) if exists else []
+            checks = [
+                ('glob', lambda: sorted(G.glob('~/*', flags=G.GLOBTILDE)), want),
+                ('iglob bytes', lambda: sorted(os.fsdecode(x) for x in G.iglob(b'~/*', flags=G.GLOBTILDE)), want),
+                ('globmatch', lambda: G.globmatch(os.path.join(home, 'f'), '~/*', flags=fl), exists),
+                ('globfilter', lambda: G.globfilter([os.path.join(home, 'f')], '~/f', flags=fl), [os.path.join(home, 'f')] if exists else []),
+                ('compile', lambda: G.compile('~/?', flags=fl).match(os.path.join(home, 'f')), exists),
+                ('translate', lambda: G.translate('~/f', flags=fl), G.translate(G.escape(home) + '/f', flags=G.REALPATH) if exists else None),
+            ]
+            for what, call_, exp in checks:
+                try:
+                    got = call_()
+                except Exception as e:  # noqa: BLE001
+                    got = f'raised {type(e).__name__}'
+                n += 1
+                if exp is not None and got != exp:
+                    ctx.disagree('GLOBTILDE answers from an earlier state of HOME / of the user folder',
+                                 {'mode': 'tilde-across-changes', 'call': what, 'home_exists': exists, 'expected': repr(exp)[:200], 'observed': repr(got)[:200]})
+
+        for rnd in range(2):
+            for home in homes:
+                os.environ['HOME'] = home
+                shutil.rmtree(home, ignore_errors=True)
+                observe(home, False)
+                os.makedirs(home)
+                open(os.path.join(home, 'f'), 'w').close()
+                observe(home, True)
+                shutil.rmtree(home)
+                observe(home, False)
+                os.makedirs(home)
+                open(os.path.join(home, 'f'), 'w').close()
+                open(os.path.join(home, 'g'), 'w').close()
+                observe(home, True)
+    finally:
+        if old_home is None:
+            os.environ.pop('HOME', None)
+        else:
+            os.environ['HOME'] = old_home
+        shutil.rmtree(root[:-len('/w/x/y/root')], ignore_errors=True)
+    ctx.evals(n)
+    ctx.count('tilde_change_checks', n)
+
+
 def matcher_reuse_across_fs(ctx):
     """A compiled REALPATH matcher is a pure function of (its arguments, the file system): reusing one object while the
     file system, the working directory or the directory behind a dir_fd changes must give the answers of a fresh call."""
@@ -674,6 +732,7 @@ def run(ctx):
         pickles_across_interpreters(ctx, pool, ctx.rng_for('px', ctx.shard))
         if ctx.shard == 0:
             mutated_arguments(ctx)
+            tilde_across_changes(ctx)
         else:
             ctx.count('mutated_argument_checks', 0)
         if ctx.shard == 0:
@@ -682,6 +741,9 @@ def run(ctx):
 
 
 def replay(ctx, w):
+    if w.get('mode') == 'tilde-across-changes':
+        tilde_across_changes(ctx)
+        return ctx.violations or None
     if w.get('mode') == 'mutated-arguments':
         mutated_arguments(ctx)
         return ctx.violations or None
